@@ -141,6 +141,8 @@ def search(chk, broken):
     n = 300 if (chk.tier == 'quick' and not broken) else 10000
     evals = 0
     for _ in range(n):
+        if chk.over():
+            break
         d = rng.choice(DIMS)
         u, v, w = rng.choice(ubd[d]), rng.choice(ubd[d]), rng.choice(ubd[d])
         x = rng.uniform(-50, 50) if d != 'Angular' else rng.uniform(-1, 1)
